@@ -130,7 +130,7 @@ ADDENDA = {
     "C05": "Later additions: fixed-form continuation table (R9), inline-comment table (R10), and no memoised function on the "
            "format-detection / reading path reads the file system (R11, 83 functions). Also: open-literal state across comment/blank lines in the fixed-form continuation table. Round 6: The reader by interpretation on generated layouts (FortranStringReader/FortranFileReader, sourceinfo and splitline interpreted from the AST on sources rendered from 3 statement lists; the expected items are known by construction) in fixed form under 11 layouts, a 70k/150k-character file by name and as file object, '&' followed by blanks and labelled free-form lines in the detector table (R12; found and fixed F66, F69; 2 known findings F67, F73). Reader and parser together on whole programs: five fixed-form layouts are read as fixed form and give the tree and text of the free-form program (R13). Round 7: a named case for a short line that ends with a word and a continuation from column 7 (known F73, found by R13 on a new sample).",
     "C06": "Later additions: accessor indices within matcher arity (R19, 176 sites); block engine addresses the opening statement by "
-           "start_idx (R20); no dereference on a path on which the variable is None for certain (R21, path-sensitive, 40 functions, 1 reviewed exception). Also: the process-terminating name-mismatch path of the block engine is enabled for the eight program-unit blocks only (R22); the reader's item constructors agree on recorded state (R23). Round 6: Base.__new__ interpreted on four synthetic registries whose alternatives lead back to a class being tried: NoMatchError, never unbounded recursion (R24). Whole programs by interpretation (reader, Base.__new__, BlockBase.match, block classes, statement matchers, symbol tables and printers interpreted; 22 sample programs): 33 hand-written and 14/160 generated malformed sources (token mutants of the samples) end in a tree or FortranSyntaxError (R25). Round 7: a raise under a length test of the text alone is a precondition on the callers, decided by interpreting every matcher that names the class on 980 probe texts (R3; F5 found fixed this way).",
+           "start_idx (R20); no dereference on a path on which the variable is None for certain (R21, path-sensitive, 40 functions, 1 reviewed exception). Also: the process-terminating name-mismatch path of the block engine is enabled for the eight program-unit blocks only (R22); the reader's item constructors agree on recorded state (R23). Round 6: Base.__new__ interpreted on four synthetic registries whose alternatives lead back to a class being tried: NoMatchError, never unbounded recursion (R24). Whole programs by interpretation (reader, Base.__new__, BlockBase.match, block classes, statement matchers, symbol tables and printers interpreted; 22 sample programs): 33 hand-written and 14/160 generated malformed sources (token mutants of the samples) end in a tree or FortranSyntaxError (R25). Round 7: a raise under a length test of the text alone is a precondition on the callers, decided by interpreting every matcher that names the class on 980 probe texts (R3; F5 was repaired in the callers and is decided this way).",
     "C07": "Later additions: definite-None dereference on clean-up paths (R10); the statement ends where the continuation table says (R11). Round 6: at the moment a statement is delivered the interpreted reader's line counter and quoted line are the statement's last physical line, on every free-form layout (R12). Whole programs by interpretation (reader, Base.__new__, BlockBase.match, block classes, statement matchers, symbol tables and printers interpreted; 22 sample programs): every statement line replaced by non-Fortran text is reported at that line with that text (R13).",
     "C08": "Later additions: only Program.match's end-of-input probe may call reader.next() inside the parser (R13, who-may-call). Also: string engines match the whole string (R14; 1 known finding F56); a program unit's END statement is not reachable as an executable construct (R15; 2 known findings F57); WORDClsBase.match with a literal keyword decided as a table (R16). Whole programs by interpretation (reader, Base.__new__, BlockBase.match, block classes, statement matchers, symbol tables and printers interpreted; 22 sample programs): 164 ill-nested variants rejected (R17; 1 known finding F70). Give-back completeness for every local built from the reader, helper functions included (R18). Round 7: BLOCK DATA (a named unit that opens no scoping region) is always among the mutated samples.",
     "C09": "Later additions: no instance attribute mutated in place is bound to a module/class-level mutable or mutable default "
